@@ -367,6 +367,12 @@ class FactFlow:
                     if isinstance(l_, ast.Call) and isinstance(l_.func, ast.Name) and l_.func.id == "len" and len(l_.args) == 1 and (const_int(r_) or 0) >= 1 \
                             and isinstance(l_.args[0], (ast.Name, ast.Attribute)):
                         out.add(("LENMINUS", tn, norm(l_.args[0]), const_int(r_)))
+                if isinstance(v, ast.Call) and isinstance(v.func, ast.Attribute) and v.func.attr in ("find", "rfind") and isinstance(v.func.value, ast.Name) and \
+                        v.args and isinstance(v.args[0], ast.Constant) and isinstance(v.args[0].value, (str, bytes)) and len(v.args[0].value) >= 1 and \
+                        v.func.value.id != tn:
+                    # tn = x.find(<non-empty literal>[, start[, end]]): either -1 or a valid index of x  (str / bytes / bytearray: the only classes with find)
+                    out.add(("IDXM1", tn, v.func.value.id))
+                    out.add(("INT", tn, -1, float("inf")))
                 if isinstance(v, ast.Constant) and (v.value is None or isinstance(v.value, str)):
                     out.add(("EQ", tn, repr(v.value)))
                 if isinstance(v, ast.Call) and self.nn_call is not None and self.nn_call(v):
